@@ -63,8 +63,12 @@ impl PriorityReceiver {
 			return Some(message);
 		}
 
+		// `biased`: when this future is polled again after having been parked, the branches must
+		// still be tried in priority order (the default is a random starting branch, which can
+		// return a normal control while an urgent one is pending).
 		if let Some(timer) = stop_timer.clone() {
 			select! {
+				biased;
 				() = timer.to_sleep() => {
 					*stop_timer = None;
 					Some(timer.to_control())
@@ -74,6 +78,7 @@ impl PriorityReceiver {
 			}
 		} else {
 			select! {
+				biased;
 				message = self.urgent.recv() => message,
 				message = self.high.recv() => message,
 				message = self.normal.recv() => message,
